@@ -156,6 +156,28 @@ def request_cases(rp, ctx):
     common.compare(ctx, 'cancel', ops, impl, what='real TaskManager.cancel_tasks / Task.cancel: uids named by the published request')
 
 
+def exec_bad(cs, obs, done, rec, quiet):
+    """C08 on one executor schedule"""
+    out = []
+    last = obs[-1]
+    bad = c07.monitor(obs, rec, quiet, True)
+    if bad:
+        out.append(('executor:' + bad[0], bad[1]))
+    # the request arrived while the task was running and the process never exited by itself
+    req_i  = [i for i, c in enumerate(done) if c in ('cancel_req', 'timeout')]
+    creq_i = [i for i, c in enumerate(done) if c == 'cancel_req']      # ('timeout' only counts once the limit is armed)
+    if creq_i and last['started'] == 1 and not last['failed']:
+        i = creq_i[0]
+        running_at_req = obs[i]['proc_key'] and obs[i]['in_tasks']
+        # (the drain lets the process exit by itself only when no thread can move any more)
+        natural_exit = any(isinstance(c, list) and c[0] == 'exit' for c in done[:len(cs)])
+        if running_at_req and not natural_exit and last['outcome'] != 'CANCELED':
+            out.append(('executor:running-task-not-canceled', 'outcome %s' % last['outcome']))
+    if not req_i and last['outcome'] == 'CANCELED':
+        out.append(('executor:canceled-without-request', str(last)))
+    return out
+
+
 def run(ctx):
     rp  = rpload.load()
     rng = ctx.rng
@@ -199,19 +221,8 @@ def run(ctx):
         ops.append(c07.model_choices(done)); impl.append(obs)
         last = obs[-1]
         ctx.case(ops[-1], nontrivial=last['outcome'] == 'CANCELED')
-        bad = c07.monitor(obs, rec, quiet, True)
-        if bad:
-            ctx.fail('executor:' + bad[0], bad[1], {'kind': 'exec', 'choices': cs})
-        # the request arrived while the task was running and the process never exited by itself
-        req_i = [i for i, c in enumerate(done) if c in ('cancel_req', 'timeout')]
-        if req_i and last['started'] == 1 and not last['failed']:
-            i = req_i[0]
-            running_at_req = obs[i]['proc_key'] and obs[i]['in_tasks']
-            natural_exit = any(isinstance(c, list) and c[0] == 'exit' for c in done)
-            if running_at_req and not natural_exit and last['outcome'] != 'CANCELED':
-                ctx.fail('executor:running-task-not-canceled', 'outcome %s' % last['outcome'], {'kind': 'exec', 'choices': cs})
-        if not req_i and last['outcome'] == 'CANCELED':
-            ctx.fail('executor:canceled-without-request', str(last), {'kind': 'exec', 'choices': cs})
+        for sig, what in exec_bad(cs, obs, done, rec, quiet):
+            ctx.fail(sig, what, {'kind': 'exec', 'choices': cs})
     common.compare(ctx, 'exec', ops, impl, what='real Popen executor with cancel requests / timeouts at every step')
 
     # -- (c) scheduler wait pool ----------------------------------------------------------
@@ -251,7 +262,8 @@ def replay(ctx, data):
         return isinstance(got, list) and set(got) == named
     if i['kind'] == 'exec':
         obs, done, rec, quiet = c07.run_schedule(rp, i['choices'])
-        print(obs[-1]); return c07.monitor(obs, rec, quiet, True) is None
+        bad = exec_bad(i['choices'], obs, done, rec, quiet)
+        print(obs[-1], bad); return not bad
     if i['kind'] == 'sched':
         s, out, tasks, crash = schedlib.run_script(rp, i['script'])
         bad, named, anyc = sched_monitor(i['script'], out)
